@@ -682,7 +682,25 @@ def root(x: f32[4], y: f32[4], sc: f32):
     return GenProgram(HEADER + body, "root", ["setcfg", "reader"], ["Cfg"], {"template": "config_callees", "prefer_ops": ["delete_config", "delete_config", "write_config", "reorder_stmts", "bind_config", "inline"]})
 
 
-ALL = [t_temp2d, t_temp2d_call, t_two_loops, t_reduce_const, t_sliding, t_two_temps, t_split_range, t_writes, t_matmul, t_conv1d, t_blur, t_name_clash, t_config_loop, t_mod_trip, t_quasi, t_config_arg, t_config_first_iter, t_dup_blocks, t_nested_windows, t_sig_calls, t_adjacent_loops, t_config_callees]
+def t_shared_iter(rng):
+    """a loop that scheduling splits into loops over the *same* iterator symbol with different
+    ranges (fission, cut_loop, then shift_loop of one half); index expressions with % and / of the
+    iterator that are removable in one range and not in the other"""
+    c = _c(rng, [4, 8])
+    n = c
+    a_idx = _c(rng, [f"i % {c}", f"(i + {c}) % {c}", f"i / {c} + i % {c}"])
+    b_idx = _c(rng, [f"i % {c}", f"i % {c}", f"(i + 1) % {c}"])
+    body = f"""@proc
+def root(x: f32[{2 * c + 4}], a: f32[{2 * c + 4}], b: f32[{2 * c + 4}]):
+    for i in seq(0, {n}):
+        a[{a_idx}] = x[i]
+        b[{b_idx}] = x[i] * 2.0
+"""
+    seq = _c(rng, [["fission", "shift_loop", "simplify"], ["fission", "shift_loop", "simplify"], ["cut_loop", "shift_loop", "simplify"], ["fission", "simplify", "shift_loop", "simplify"]])
+    return GenProgram(HEADER + body, "root", [], [], {"template": "shared_iter", "op_sequence": seq, "prefer_ops": ["fission", "shift_loop", "simplify"]})
+
+
+ALL = [t_temp2d, t_temp2d_call, t_two_loops, t_reduce_const, t_sliding, t_two_temps, t_split_range, t_writes, t_matmul, t_conv1d, t_blur, t_name_clash, t_config_loop, t_mod_trip, t_quasi, t_config_arg, t_config_first_iter, t_dup_blocks, t_nested_windows, t_sig_calls, t_adjacent_loops, t_config_callees, t_shared_iter]
 
 
 def any_template(rng):
@@ -690,7 +708,8 @@ def any_template(rng):
 
 
 def quasi_template(rng):
-    return (t_quasi if rng.random() < 0.8 else t_mod_trip)(rng)
+    r = rng.random()
+    return t_quasi(rng) if r < 0.65 else (t_mod_trip(rng) if r < 0.8 else t_shared_iter(rng))
 
 
 def config_template(rng):
